@@ -92,3 +92,59 @@ def check_C16(res, replay):
                     "all symmetric matrices over {0,1,1.5,2,3,4} for N<=3 (quick; N<=4 thorough), random symmetric and asymmetric "
                     "matrices to N=20, wrong sizes, unsupported and tolerance-edge values; through the cfg(optrs_verif) wrapper driver",
                     extra_audit=["OptRs.Lemmas.Sets", "OptRs.Lemmas.TopologyLemmas", "OptRs.Model.Topology"])
+
+
+GRAD_LEMMAS = ["OptRs.Lemmas.GradPairs", "OptRs.Lemmas.GradBends", "OptRs.Lemmas.GradTorsion", "OptRs.Lemmas.GradInversion",
+               "OptRs.Lemmas.TorsionAtoms", "OptRs.Lemmas.TorsionEnergy", "OptRs.Lemmas.InvBasic", "OptRs.Lemmas.InvCore",
+               "OptRs.Lemmas.InvEnv", "OptRs.Lemmas.EnvR", "OptRs.Lemmas.FFReal", "OptRs.Lemmas.Geometry",
+               "OptRs.Calc.Real", "OptRs.Calc.Atan2", "OptRs.Calc.Ex", "OptRs.Model.Energy"]
+REAL_ASSUMPTION = ("theorems are about the real-number reading of the source text (literals exact, operations exact); rounding/cancellation "
+                   "at a particular geometry is outside them and is covered by the finite-difference oracle on the real f64 code")
+
+
+# ---------------------------------------------------------------------------------------------------- C02
+
+def check_C02(res, replay):
+    res.trusted = TB_COMMON + ["Mathlib (real analysis)", "hand energy model Model/Energy.lean tied bit-for-bit to the Rust energy functions",
+                               "axioms audited: subset of {propext, Classical.choice, Quot.sound}"]
+    res.assumptions = [REAL_ASSUMPTION, "torsion: proved off the atan2 branch cut (phi = ±pi) and off collinear i-j-k / j-k-l",
+                       "repulsion exponent modelled as a natural number (the Rust field is i32; RB only ever uses 2)"]
+    return standard(res, ["tables", "terms"], ["OptRs.Props.C02"], [("terms", [], "terms")], "proof",
+                    "lake build OptRs.Props.C02 (per-slot identities tangent(energy) = translated gradient for all 7 kinds, closed forms) + #print axioms audit",
+                    "per kind: random admissible parameters (all multiplicities/phases UFF assigns plus arbitrary reals) x random positions "
+                    "(20% at large offsets) x random index assignment in a 12-atom array; energy and all gradient slots compared bit for bit with "
+                    "the model; finite-difference and locality oracles on the Rust functions", extra_audit=GRAD_LEMMAS)
+
+
+# ---------------------------------------------------------------------------------------------------- C01
+
+def check_C01(res, replay):
+    res.trusted = TB_COMMON + ["Mathlib (real analysis)", "hooks UFF::verif_terms / RB::verif_terms export the private term lists",
+                               "axioms audited: subset of {propext, Classical.choice, Quot.sound}"]
+    res.assumptions = [REAL_ASSUMPTION, "the 'one part in 1e6' clause is a floating-point claim: explored by Richardson-extrapolated central "
+                       "differences of Forcefield::energy against Forcefield::gradient, skipping geometries within ~0.1 rad of a term's singular set",
+                       "that Forcefield::energy/gradient are the sum/fold over exactly the exported terms is checked bit for bit on every generated molecule"]
+    return standard(res, ["tables", "terms"], ["OptRs.Props.C01", "OptRs.Props.C02"], [("ff", [], "ff"), ("terms", [], "terms")], "proof",
+                    "lake build OptRs.Props.C01 OptRs.Props.C02 + #print axioms audit",
+                    "library of 25 molecules + random molecules (every element as centre in 9 coordination geometries, chains, rings, clusters) x "
+                    "3 geometries (as built, distorted 0.05 A, distorted 0.15 A + rigid motion) x {UFF, RB}: energy and gradient compared bit for bit "
+                    "with the model's sum over exported terms; finite-difference oracle on molecules of <= 14 atoms", extra_audit=GRAD_LEMMAS)
+
+
+TOPO_AUDIT = ["OptRs.Lemmas.Sets", "OptRs.Lemmas.TopologyLemmas", "OptRs.Model.Topology", "OptRs.Model.Perceive", "OptRs.Model.Atoms"]
+
+
+# ---------------------------------------------------------------------------------------------------- C09
+
+def check_C09(res, replay):
+    res.trusted = TB_COMMON + ["hand model OptRs.Model.perceiveBonds/addBond/assignOrders of Molecule::add_bonds; candidate lists computed at f64 in the driver",
+                               "axioms audited: subset of {propext, Classical.choice, Quot.sound}"]
+    res.assumptions = ["symmetry of the distance predicate over f64 ((a-b)^2 = (b-a)^2, r_i + r_j = r_j + r_i) is IEEE commutativity, exercised by the driver",
+                       "theorems hold for any candidate order, so they do not depend on the sort; determinism/idempotence is by construction of the model and "
+                       "checked on the implementation by re-perceiving",
+                       "the oracle keeps a 1e-12 relative clearance around the 1.3 threshold (rounding there is not a violation)"]
+    return standard(res, ["tables"], ["OptRs.Props.C09"], [("perceive", [], "perceive")], "proof",
+                    "lake build OptRs.Props.C09 + #print axioms audit",
+                    "library molecules; crowded clusters (6-20 atoms in a 3 A box, incl. noble gases); lattice geometries with exact distance ties and "
+                    "coincident atoms; chains stretched to 1.29/1.2999/1.3001/1.31 x sum of radii over all 118 elements; distorted, rigidly moved and "
+                    "united random molecules. Non-trivial = at least one bond", extra_audit=TOPO_AUDIT)
